@@ -156,3 +156,45 @@ def walk_no_nested(node):
             if isinstance(c, (ast.FunctionDef, ast.AsyncFunctionDef, ast.ClassDef, ast.Lambda)):
                 continue
             todo.append(c)
+
+
+class _AugView:
+    """A CFG statement node seen as an increment `target op= value` (also for the expanded
+    form `t = t op v`)."""
+    __slots__ = ('id', 'kind', 'ast', 'lineno', 'orig')
+
+    def __init__(self, node, target, op, value):
+        self.id = node.id
+        self.kind = 'stmt'
+        self.orig = node.ast
+        self.lineno = node.lineno
+        a = ast.AugAssign(target=target, op=op, value=value)
+        ast.copy_location(a, node.ast)
+        self.ast = a
+
+
+def aug_nodes(cfg):
+    """All statement nodes of a CFG that are increments, as _AugView objects."""
+    out = []
+    for n in cfg.nodes:
+        if n.kind == 'stmt':
+            r = as_aug(n.ast)
+            if r is not None:
+                out.append(_AugView(n, *r))
+    return out
+
+
+def as_aug(st):
+    """(target, op, value) if the statement increments its target: `t op= v`, or the
+    expanded forms `t = t op v` / `t = v + t`; else None."""
+    if isinstance(st, ast.AugAssign):
+        return st.target, st.op, st.value
+    if isinstance(st, ast.Assign) and len(st.targets) == 1 and isinstance(st.value, ast.BinOp):
+        t = st.targets[0]
+        tt = unparse(t)
+        if unparse(st.value.left) == tt:
+            return t, st.value.op, st.value.right
+        if isinstance(st.value.op, (ast.Add, ast.Mult, ast.BitAnd, ast.BitOr)) and \
+                unparse(st.value.right) == tt:
+            return t, st.value.op, st.value.left
+    return None
